@@ -5,6 +5,7 @@
 import FalconProofs.C15.Copy
 import FalconProofs.C15.MergeRound
 import FalconProofs.C15.AppendView
+import FalconProofs.C15.MergeTotal
 
 namespace Falcon.C15
 open Falcon Falcon.CfgEdit
@@ -90,12 +91,21 @@ theorem merge_step_preserves_paths {c c' : Cfg} {m s : Nat} (hw : WF c) (hv : Va
   obtain ⟨mb, sb, hV⟩ := mergeStep_view hv.ne h
   exact mergeStep_lang hw hv hV
 
+/-- **merge_ok** — on every well-formed graph `ControlFlowGraph::merge` returns `Ok`: the selection loop does not
+    panic, no merge step fails (in particular no "duplicate edge": a block whose only successor is itself is
+    skipped), and the loop terminates (every round that merges removes a block; `blocks.length + 1` rounds of
+    fuel are never exhausted). -/
+theorem merge_ok {c : Cfg} (hw : WF c) : (merge c).res = .ok () := merge_total hw
+
 /-- **merge_preserves_paths** — `ControlFlowGraph::merge` (all rounds: the pairs of a round are selected in the
-    iteration order of the code, are valid and pairwise disjoint, and stay valid while the round is applied) does
-    not change the language of operation/guard sequences from the entry, on every well-formed graph on which it
-    returns `Ok`.  (That it returns `Ok` on every well-formed graph is `merge_ok` below.) -/
-theorem merge_preserves_paths {c : Cfg} (hw : WF c) (h : (merge c).res = .ok ()) :
-    ∀ w, Lang (merge c).cfg w ↔ Lang c w := by
+    iteration order of the code, are valid and pairwise disjoint, and stay valid while the round is applied; the
+    outer loop runs until no pair is left) succeeds and does not change the language of operation/guard
+    sequences that can be executed from the entry, on every well-formed graph — including graphs with cycles,
+    self-loops, conditional edges, empty blocks and unreachable parts. -/
+theorem merge_preserves_paths {c : Cfg} (hw : WF c) :
+    (merge c).res = .ok () ∧ ∀ w, Lang (merge c).cfg w ↔ Lang c w := by
+  have h := merge_total hw
+  refine ⟨h, ?_⟩
   have : merge c = ⟨(merge c).cfg, .ok ()⟩ := by
     cases hm : merge c with
     | mk c' r => rw [hm] at h; simp only at h; subst h; rfl
